@@ -678,3 +678,37 @@ func ReplayPlacement(path string) int {
 	}
 	return 0
 }
+
+// ReplaySeeded re-runs a case of a seed-driven engine from the seed stored in its witness.
+func ReplaySeeded(path string, prop string) int {
+	b, err := os.ReadFile(path)
+	if err != nil {
+		fmt.Println(err)
+		return 2
+	}
+	var rf ReplayFile
+	if err := jsonUnmarshal(b, &rf); err != nil {
+		fmt.Println(err)
+		return 2
+	}
+	var res *CaseResult
+	switch prop {
+	case "C12":
+		res = RunRecoveryCase(rf.CaseSeed, "", nil)
+	default:
+		return 2
+	}
+	hit := 0
+	for _, v := range res.Violations {
+		fmt.Printf("  >>> %s step %d: %s\n", v.Signature, v.Step, v.Text)
+		if v.Prop == prop {
+			hit++
+		}
+	}
+	fmt.Printf("replay done: %d violations of %s\n", hit, prop)
+	if hit > 0 {
+		fmt.Printf("VIOLATION property=%s replay=%s\n", prop, path)
+		return 1
+	}
+	return 0
+}
